@@ -1,3 +1,7 @@
+// Specification shim: the API surface of cosmwasm-std, cw-storage-plus, rust_decimal, semver, uuid,
+// provwasm-std and serde_json that /repo uses, with *assumed* contracts (external_body + ensures)
+// over the ghost model of /verif/spec.  Every item marked external_body / assume_specification /
+// `broadcast proof fn axiom_*` is part of the trusted base and is enumerated into each evidence file.
 pub mod flat {
 use vstd::prelude::*;
 use vstd::std_specs::cmp::*;
@@ -5,10 +9,28 @@ use vstd::std_specs::ops::*;
 use vstd::std_specs::convert::*;
 use core::cmp::Ordering;
 use crate::error::ContractError;
+use crate::shim::strict;
+use crate::spec::*;
 
+// ---------- std functions vstd has no specification for (A-STD) ----------
+pub assume_specification [ u128::pow ] (a: u128, b: u32) -> (r: u128)
+    requires a == 10, b <= 18,
+    ensures r as int == pow10(b as int);
+pub assume_specification<T> [ <T as From<T>>::from ] (t: T) -> (r: T)
+    ensures r == t;
+pub assume_specification<T: Clone> [ <T as ToOwned>::to_owned ] (s: &T) -> (r: T)
+    ensures cloned(*s, r);
+pub assume_specification [ String::as_bytes ] (s: &String) -> (r: &[u8])
+    ensures r@ == str_bytes(s@);
+pub assume_specification<T: PartialEq> [ <[T]>::contains ] (s: &[T], x: &T) -> (r: bool)
+    ensures T::obeys_eq_spec() ==> r == (exists|i: int| 0 <= i < s@.len() && #[trigger] s@[i].eq_spec(x));
+
+// ---------- abort-on-None/Err (rule R2) ----------
 pub trait UnwrapAbort<T>: Sized {
     spec fn ua_val(self) -> Option<T>;
-    fn unwrap_abort(self) -> (r: T) ensures self.ua_val() == Some(r);
+    fn unwrap_abort(self) -> (r: T)
+        requires strict() ==> self.ua_val() is Some,
+        ensures self.ua_val() == Some(r);
 }
 impl<T> UnwrapAbort<T> for Option<T> {
     open spec fn ua_val(self) -> Option<T> { self }
@@ -19,186 +41,599 @@ impl<T, E> UnwrapAbort<T> for Result<T, E> {
     #[verifier::external_body] fn unwrap_abort(self) -> (r: T) { match self { Ok(t) => t, Err(_) => panic!() } }
 }
 #[verifier::external_body] pub fn fmt_opaque() -> String { unimplemented!() }
-pub assume_specification [ u128::pow ] (a: u128, b: u32) -> u128;
-pub assume_specification<T: Clone> [ <T as ToOwned>::to_owned ] (s: &T) -> (r: T);
-pub assume_specification [ String::as_bytes ] (s: &String) -> (r: &[u8]);
-pub assume_specification<T: PartialEq> [ <[T]>::contains ] (s: &[T], x: &T) -> (r: bool);
 
-// ---------- Uint128 ----------
+// ---------- conversions with a specification (rule R13: `Into<String>` / `Into<Addr>` bounds) ----------
+pub mod conv {
+    use vstd::prelude::*;
+    use super::{Addr, Uint128};
+    use crate::spec::*;
+    pub trait IntoStringS: Sized {
+        spec fn istr(self) -> Seq<char>;
+        fn into(self) -> (r: String) ensures r@ == self.istr();
+    }
+    impl IntoStringS for String {
+        open spec fn istr(self) -> Seq<char> { self@ }
+        fn into(self) -> (r: String) { self }
+    }
+    impl IntoStringS for &String {
+        open spec fn istr(self) -> Seq<char> { self@ }
+        fn into(self) -> (r: String) { self.clone() }
+    }
+    impl IntoStringS for &str {
+        open spec fn istr(self) -> Seq<char> { self@ }
+        fn into(self) -> (r: String) { self.to_string() }
+    }
+    impl IntoStringS for Uint128 {
+        open spec fn istr(self) -> Seq<char> { u128_str(self.v as int) }
+        fn into(self) -> (r: String) { self.to_string() }
+    }
+    pub trait IntoAddrS: Sized {
+        spec fn iaddr(self) -> Seq<char>;
+        fn into(self) -> (r: Addr) ensures r.s@ == self.iaddr();
+    }
+    impl IntoAddrS for Addr {
+        open spec fn iaddr(self) -> Seq<char> { self.s@ }
+        fn into(self) -> (r: Addr) { self }
+    }
+}
+use conv::{IntoStringS, IntoAddrS};
+
+// ---------- Uint128 (A-UINT) ----------
 #[derive(Clone, Copy, Debug)]
 pub struct Uint128 { pub v: u128 }
+impl PartialEqSpecImpl for Uint128 {
+    open spec fn obeys_eq_spec() -> bool { true }
+    open spec fn eq_spec(&self, other: &Uint128) -> bool { self.v == other.v }
+}
 impl PartialEq for Uint128 { fn eq(&self, other: &Uint128) -> (r: bool) { self.v == other.v } }
+impl PartialOrdSpecImpl for Uint128 {
+    open spec fn obeys_partial_cmp_spec() -> bool { true }
+    open spec fn partial_cmp_spec(&self, other: &Uint128) -> Option<Ordering> {
+        if self.v < other.v { Some(Ordering::Less) } else if self.v == other.v { Some(Ordering::Equal) } else { Some(Ordering::Greater) }
+    }
+}
 impl PartialOrd for Uint128 {
-    #[verifier::external_body] fn partial_cmp(&self, other: &Uint128) -> (r: Option<Ordering>) { unimplemented!() }
+    fn partial_cmp(&self, other: &Uint128) -> (r: Option<Ordering>) {
+        if self.v < other.v { Some(Ordering::Less) } else if self.v == other.v { Some(Ordering::Equal) } else { Some(Ordering::Greater) }
+    }
 }
-impl core::ops::Sub for Uint128 { type Output = Uint128; #[verifier::external_body] fn sub(self, rhs: Uint128) -> (r: Uint128) { unimplemented!() } }
-impl core::ops::Add for Uint128 { type Output = Uint128; #[verifier::external_body] fn add(self, rhs: Uint128) -> (r: Uint128) { unimplemented!() } }
-impl core::ops::SubAssign for Uint128 { #[verifier::external_body] fn sub_assign(&mut self, rhs: Uint128) { unimplemented!() } }
+impl SubSpecImpl<Uint128> for Uint128 {
+    open spec fn obeys_sub_spec() -> bool { false }
+    open spec fn sub_req(self, rhs: Uint128) -> bool { strict() ==> self.v >= rhs.v }
+    open spec fn sub_spec(self, rhs: Uint128) -> Uint128 { arbitrary() }
+}
+impl core::ops::Sub for Uint128 {
+    type Output = Uint128;
+    #[verifier::external_body]
+    fn sub(self, rhs: Uint128) -> (r: Uint128) ensures self.v >= rhs.v, r.v == self.v - rhs.v { unimplemented!() }
+}
+impl AddSpecImpl<Uint128> for Uint128 {
+    open spec fn obeys_add_spec() -> bool { false }
+    open spec fn add_req(self, rhs: Uint128) -> bool { strict() ==> self.v + rhs.v <= u128::MAX }
+    open spec fn add_spec(self, rhs: Uint128) -> Uint128 { arbitrary() }
+}
+impl core::ops::Add for Uint128 {
+    type Output = Uint128;
+    #[verifier::external_body]
+    fn add(self, rhs: Uint128) -> (r: Uint128) ensures self.v + rhs.v <= u128::MAX, r.v == self.v + rhs.v { unimplemented!() }
+}
+impl SubAssignSpecImpl<Uint128> for Uint128 {
+    open spec fn obeys_sub_assign_spec() -> bool { false }
+    open spec fn sub_assign_req(&self, rhs: Uint128) -> bool { strict() ==> self.v >= rhs.v }
+    open spec fn sub_assign_spec(&self, rhs: Uint128) -> &Uint128 { arbitrary() }
+}
+impl core::ops::SubAssign for Uint128 {
+    #[verifier::external_body]
+    fn sub_assign(&mut self, rhs: Uint128) ensures old(self).v >= rhs.v, final(self).v == old(self).v - rhs.v { unimplemented!() }
+}
 impl Uint128 {
-    pub fn u128(&self) -> (r: u128) { self.v }
-    pub fn is_zero(&self) -> (r: bool) { self.v == 0 }
-    pub fn new(v: u128) -> (r: Uint128) { Uint128 { v } }
-    pub fn zero() -> (r: Uint128) { Uint128 { v: 0 } }
-    #[verifier::external_body] pub fn checked_sub(self, o: Uint128) -> (r: Result<Uint128, OverflowError>) { unimplemented!() }
-    #[verifier::external_body] pub fn checked_add(self, o: Uint128) -> (r: Result<Uint128, OverflowError>) { unimplemented!() }
-    #[verifier::external_body] pub fn to_string(&self) -> (r: String) { unimplemented!() }
+    pub fn u128(&self) -> (r: u128) ensures r == self.v { self.v }
+    pub fn is_zero(&self) -> (r: bool) ensures r == (self.v == 0) { self.v == 0 }
+    pub fn new(v: u128) -> (r: Uint128) ensures r.v == v { Uint128 { v } }
+    pub fn zero() -> (r: Uint128) ensures r.v == 0 { Uint128 { v: 0 } }
+    #[verifier::external_body]
+    pub fn checked_sub(self, o: Uint128) -> (r: Result<Uint128, OverflowError>)
+        ensures self.v >= o.v ==> r == Ok::<Uint128, OverflowError>(Uint128 { v: (self.v - o.v) as u128 }), self.v < o.v ==> r is Err
+    { unimplemented!() }
+    #[verifier::external_body]
+    pub fn checked_add(self, o: Uint128) -> (r: Result<Uint128, OverflowError>)
+        ensures self.v + o.v <= u128::MAX ==> r == Ok::<Uint128, OverflowError>(Uint128 { v: (self.v + o.v) as u128 }), self.v + o.v > u128::MAX ==> r is Err
+    { unimplemented!() }
+    #[verifier::external_body]
+    pub fn to_string(&self) -> (r: String) ensures r@ == u128_str(self.v as int) { unimplemented!() }
 }
-impl From<Uint128> for u128 { #[verifier::external_body] fn from(x: Uint128) -> (r: u128) { x.v } }
-impl From<u128> for Uint128 { #[verifier::external_body] fn from(x: u128) -> (r: Uint128) { Uint128 { v: x } } }
+impl FromSpecImpl<Uint128> for u128 {
+    open spec fn obeys_from_spec() -> bool { true }
+    open spec fn from_spec(x: Uint128) -> u128 { x.v }
+}
+impl From<Uint128> for u128 { fn from(x: Uint128) -> (r: u128) { x.v } }
+impl FromSpecImpl<u128> for Uint128 {
+    open spec fn obeys_from_spec() -> bool { true }
+    open spec fn from_spec(x: u128) -> Uint128 { Uint128 { v: x } }
+}
+impl From<u128> for Uint128 { fn from(x: u128) -> (r: Uint128) { Uint128 { v: x } } }
+
 #[derive(Debug)] pub struct OverflowError {}
 #[derive(Debug)] pub enum StdError { GenericErr { msg: String }, Overflow { source: OverflowError }, NotFound { kind: String } }
-impl StdError { #[verifier::external_body] pub fn generic_err(m: &str) -> StdError { unimplemented!() } }
+impl StdError { #[verifier::external_body] pub fn generic_err(m: &str) -> (r: StdError) { unimplemented!() } }
 pub type StdResult<T> = Result<T, StdError>;
 #[derive(Debug)] pub struct SemverError {}
 #[derive(Debug)] pub struct UuidError {}
 #[derive(Debug)] pub struct Error {}
-pub struct BlockInfo { pub height: u64, pub time: Timestamp }
+#[derive(Debug)] pub struct BlockInfo { pub height: u64, pub time: Timestamp }
 pub fn entry_point() {}
 pub trait FromPrimitive {} pub trait FromStr {} pub trait ToPrimitive {} pub trait Zero {}
-#[derive(Clone, Debug, PartialEq, Default)] pub struct Timestamp { pub n: u64 }
+#[derive(Clone, Copy, Debug, PartialEq, Default)] pub struct Timestamp { pub n: u64 }
 
-// ---------- Decimal ----------
+// ---------- Decimal (A-DEC, A-DEC-DIV) ----------
 #[derive(Clone, Copy)]
 pub struct Decimal { pub q: Ghost<int> }
-pub enum RoundingStrategy { MidpointAwayFromZero, MidpointNearestEven, MidpointTowardZero, ToZero, AwayFromZero }
+pub enum RoundingStrategy { MidpointAwayFromZero, MidpointNearestEven, MidpointTowardZero, ToZero, AwayFromZero, ToNegativeInfinity, ToPositiveInfinity }
+pub open spec fn strategy_code(s: RoundingStrategy) -> int {
+    match s {
+        RoundingStrategy::MidpointAwayFromZero => 0, RoundingStrategy::MidpointNearestEven => 1,
+        RoundingStrategy::MidpointTowardZero => 2, RoundingStrategy::ToZero => 3, RoundingStrategy::AwayFromZero => 4,
+        RoundingStrategy::ToNegativeInfinity => 5, RoundingStrategy::ToPositiveInfinity => 6,
+    }
+}
 pub struct DecErr {}
 impl Decimal {
-    #[verifier::external_body] pub fn from_str(s: &str) -> (r: Result<Decimal, DecErr>) { unimplemented!() }
-    #[verifier::external_body] pub fn checked_mul(self, o: Decimal) -> (r: Option<Decimal>) { unimplemented!() }
-    #[verifier::external_body] pub fn checked_sub(self, o: Decimal) -> (r: Option<Decimal>) { unimplemented!() }
-    #[verifier::external_body] pub fn checked_div(self, o: Decimal) -> (r: Option<Decimal>) { unimplemented!() }
-    #[verifier::external_body] pub fn fract(&self) -> (r: Decimal) { unimplemented!() }
-    #[verifier::external_body] pub fn zero() -> (r: Decimal) { unimplemented!() }
-    #[verifier::external_body] pub fn is_zero(&self) -> (r: bool) { unimplemented!() }
-    #[verifier::external_body] pub fn is_sign_negative(&self) -> (r: bool) { unimplemented!() }
-    #[verifier::external_body] pub fn round_dp_with_strategy(&self, dp: u32, s: RoundingStrategy) -> (r: Decimal) { unimplemented!() }
-    #[verifier::external_body] pub fn to_u128(&self) -> (r: Option<u128>) { unimplemented!() }
-    #[verifier::external_body] pub fn from_u128(n: u128) -> (r: Option<Decimal>) { unimplemented!() }
-    #[verifier::external_body] pub fn to_string(&self) -> (r: String) { unimplemented!() }
-    #[verifier::external_body] pub fn cmp(&self, o: &Decimal) -> (r: Ordering) { unimplemented!() }
+    #[verifier::external_body]
+    pub fn from_str(s: &str) -> (r: Result<Decimal, DecErr>)
+        ensures match parse_dec(s@) { Some(q) => r is Ok && r->Ok_0.q@ == q, None => r is Err },
+                strict() && r is Ok ==> fits(r->Ok_0.q@),
+    { unimplemented!() }
+    #[verifier::external_body]
+    pub fn checked_mul(self, o: Decimal) -> (r: Option<Decimal>)
+        ensures r is Some ==> r->0.q@ == dmul(self.q@, o.q@),
+                strict() && fits(dmul(self.q@, o.q@)) ==> r is Some,
+    { unimplemented!() }
+    #[verifier::external_body]
+    pub fn checked_sub(self, o: Decimal) -> (r: Option<Decimal>)
+        ensures r is Some ==> r->0.q@ == dsub(self.q@, o.q@),
+                strict() && fits(dsub(self.q@, o.q@)) ==> r is Some,
+    { unimplemented!() }
+    #[verifier::external_body]
+    pub fn checked_div(self, o: Decimal) -> (r: Option<Decimal>)
+        ensures r is Some ==> o.q@ != 0 && r->0.q@ == ddiv(self.q@, o.q@),
+                strict() && o.q@ != 0 && fits(ddiv(self.q@, o.q@)) ==> r is Some,
+    { unimplemented!() }
+    #[verifier::external_body]
+    pub fn fract(&self) -> (r: Decimal)
+        ensures (r.q@ == 0) == is_whole(self.q@)
+    { unimplemented!() }
+    #[verifier::external_body]
+    pub fn zero() -> (r: Decimal) ensures r.q@ == 0 { unimplemented!() }
+    #[verifier::external_body]
+    pub fn is_zero(&self) -> (r: bool) ensures r == (self.q@ == 0) { unimplemented!() }
+    #[verifier::external_body]
+    pub fn is_sign_negative(&self) -> (r: bool) ensures self.q@ > 0 ==> !r, self.q@ < 0 ==> r { unimplemented!() }
+    #[verifier::external_body]
+    pub fn round_dp_with_strategy(&self, dp: u32, s: RoundingStrategy) -> (r: Decimal)
+        ensures (dp == 0 && s is MidpointAwayFromZero) ==> r.q@ == of_int(round_half_away(self.q@)),
+                !(dp == 0 && s is MidpointAwayFromZero) ==> r.q@ == round_other(strategy_code(s), dp as int, self.q@),
+    { unimplemented!() }
+    #[verifier::external_body]
+    pub fn to_u128(&self) -> (r: Option<u128>)
+        ensures self.q@ < 0 ==> r is None, self.q@ >= 0 ==> r is Some && r->0 as int == whole(self.q@)
+    { unimplemented!() }
+    #[verifier::external_body]
+    pub fn from_u128(n: u128) -> (r: Option<Decimal>)
+        ensures r is Some ==> r->0.q@ == of_int(n as int),
+                (n as int) < LIMIT96() ==> r is Some,
+    { unimplemented!() }
+    #[verifier::external_body]
+    pub fn to_string(&self) -> (r: String) ensures r@ == dec_str(self.q@) { unimplemented!() }
+    #[verifier::external_body]
+    pub fn cmp(&self, o: &Decimal) -> (r: Ordering)
+        ensures r == (if self.q@ < o.q@ { Ordering::Less } else if self.q@ == o.q@ { Ordering::Equal } else { Ordering::Greater })
+    { unimplemented!() }
+}
+impl PartialEqSpecImpl for Decimal {
+    open spec fn obeys_eq_spec() -> bool { true }
+    open spec fn eq_spec(&self, other: &Decimal) -> bool { self.q@ == other.q@ }
 }
 impl PartialEq for Decimal { #[verifier::external_body] fn eq(&self, other: &Decimal) -> (r: bool) { unimplemented!() } }
+impl PartialOrdSpecImpl for Decimal {
+    open spec fn obeys_partial_cmp_spec() -> bool { true }
+    open spec fn partial_cmp_spec(&self, other: &Decimal) -> Option<Ordering> {
+        if self.q@ < other.q@ { Some(Ordering::Less) } else if self.q@ == other.q@ { Some(Ordering::Equal) } else { Some(Ordering::Greater) }
+    }
+}
 impl PartialOrd for Decimal { #[verifier::external_body] fn partial_cmp(&self, other: &Decimal) -> (r: Option<Ordering>) { unimplemented!() } }
-impl From<u128> for Decimal { #[verifier::external_body] fn from(x: u128) -> (r: Decimal) { unimplemented!() } }
-impl From<i32> for Decimal { #[verifier::external_body] fn from(x: i32) -> (r: Decimal) { unimplemented!() } }
+impl FromSpecImpl<u128> for Decimal {
+    open spec fn obeys_from_spec() -> bool { false }
+    open spec fn from_spec(x: u128) -> Decimal { arbitrary() }
+}
+// `Decimal::from(u128)` aborts above the 96-bit mantissa: refusal in lenient mode, required in strict mode
+impl From<u128> for Decimal {
+    #[verifier::external_body]
+    fn from(x: u128) -> (r: Decimal) ensures r.q@ == of_int(x as int), (x as int) < LIMIT96() { unimplemented!() }
+}
+impl FromSpecImpl<i32> for Decimal {
+    open spec fn obeys_from_spec() -> bool { false }
+    open spec fn from_spec(x: i32) -> Decimal { arbitrary() }
+}
+impl From<i32> for Decimal { #[verifier::external_body] fn from(x: i32) -> (r: Decimal) ensures r.q@ == of_int(x as int) { unimplemented!() } }
 
 // ---------- Addr / Coin ----------
 #[derive(Debug)] pub struct Addr { pub s: String }
-impl Clone for Addr { fn clone(&self) -> (r: Addr) { Addr { s: self.s.clone() } } }
+impl Clone for Addr { fn clone(&self) -> (r: Addr) ensures r == *self { Addr { s: self.s.clone() } } }
+impl PartialEqSpecImpl for Addr {
+    open spec fn obeys_eq_spec() -> bool { true }
+    open spec fn eq_spec(&self, other: &Addr) -> bool { self.s@ == other.s@ }
+}
 impl PartialEq for Addr { fn eq(&self, other: &Addr) -> (r: bool) { self.s == other.s } }
 impl Addr {
-    #[verifier::external_body] pub fn to_string(&self) -> (r: String) { unimplemented!() }
-    pub fn into_string(self) -> (r: String) { self.s }
-    #[verifier::external_body] pub fn unchecked(s: &str) -> (r: Addr) { unimplemented!() }
+    pub fn to_string(&self) -> (r: String) ensures r@ == self.s@ { self.s.clone() }
+    pub fn into_string(self) -> (r: String) ensures r@ == self.s@ { self.s }
+    #[verifier::external_body] pub fn unchecked(s: &str) -> (r: Addr) ensures r.s@ == s@ { unimplemented!() }
 }
 #[derive(Debug)] pub struct Coin { pub denom: String, pub amount: Uint128 }
-impl Clone for Coin { fn clone(&self) -> (r: Coin) { Coin { denom: self.denom.clone(), amount: self.amount } } }
+impl Clone for Coin { fn clone(&self) -> (r: Coin) ensures r == *self { Coin { denom: self.denom.clone(), amount: self.amount } } }
+impl PartialEqSpecImpl for Coin {
+    open spec fn obeys_eq_spec() -> bool { true }
+    open spec fn eq_spec(&self, other: &Coin) -> bool { self.denom@ == other.denom@ && self.amount.v == other.amount.v }
+}
 impl PartialEq for Coin { fn eq(&self, other: &Coin) -> (r: bool) { self.denom == other.denom && self.amount == other.amount } }
-#[verifier::external_body] pub fn coins<S: Into<String>>(a: u128, d: S) -> Vec<Coin> { unimplemented!() }
-#[verifier::external_body] pub fn coin<S: Into<String>>(a: u128, d: S) -> Coin { unimplemented!() }
+pub fn coins<S: IntoStringS>(a: u128, d: S) -> (r: Vec<Coin>)
+    ensures r@.len() == 1, r@[0].denom@ == d.istr(), r@[0].amount.v == a
+{
+    let mut v = Vec::new();
+    v.push(Coin { denom: d.into(), amount: Uint128 { v: a } });
+    v
+}
+pub fn coin<S: IntoStringS>(a: u128, d: S) -> (r: Coin)
+    ensures r.denom@ == d.istr(), r.amount.v == a
+{ Coin { denom: d.into(), amount: Uint128 { v: a } } }
+/// the funds vector is exactly one coin (a, d)
+pub open spec fn funds_are(f: Seq<Coin>, a: int, d: Seq<char>) -> bool {
+    f.len() == 1 && f[0].denom@ == d && f[0].amount.v == a
+}
 
-// ---------- storage ----------
-pub struct Storage { pub g: Ghost<int> }
-pub struct Map<V> { pub ns: &'static str, pub p: Ghost<Option<V>> }
+// ---------- storage (A-STORE, A-SERDE) ----------
+pub struct Storage { pub g: Ghost<StoreV> }
+impl View for Storage { type V = StoreV; open spec fn view(&self) -> StoreV { self.g@ } }
+pub struct CwMap<V> { pub ns: &'static str, pub p: Ghost<Option<V>> }
 pub enum Order { Ascending, Descending }
-impl<V> Map<V> {
-    pub const fn new(ns: &'static str) -> Self { Map { ns, p: Ghost(None) } }
-    #[verifier::external_body] pub fn load(&self, store: &Storage, k: &[u8]) -> (r: Result<V, StdError>) { unimplemented!() }
-    #[verifier::external_body] pub fn may_load(&self, store: &Storage, k: &[u8]) -> (r: Result<Option<V>, StdError>) { unimplemented!() }
-    #[verifier::external_body] pub fn save(&self, store: &mut Storage, k: &[u8], v: &V) -> (r: Result<(), StdError>) { unimplemented!() }
-    #[verifier::external_body] pub fn remove(&self, store: &mut Storage, k: &[u8]) { unimplemented!() }
-    #[verifier::external_body] pub fn is_empty(&self, store: &Storage) -> bool { unimplemented!() }
-    #[verifier::external_body] pub fn keys_that_load(&self, store: &Storage) -> Vec<Vec<u8>> { unimplemented!() }
-    #[verifier::external_body] pub fn update<A: FnOnce(Option<V>) -> Result<V, E>, E: From<StdError>>(&self, store: &mut Storage, k: &[u8], action: A) -> (r: Result<V, E>) { unimplemented!() }
+impl<V: MapStored> CwMap<V> {
+    pub const fn new(ns: &'static str) -> Self { CwMap { ns, p: Ghost(None) } }
+    #[verifier::external_body]
+    pub fn load(&self, store: &Storage, k: &[u8]) -> (r: Result<V, StdError>)
+        ensures match V::m_get(store@, k@) { Some(v) => r == Ok::<V, StdError>(v), None => r is Err }
+    { unimplemented!() }
+    #[verifier::external_body]
+    pub fn may_load(&self, store: &Storage, k: &[u8]) -> (r: Result<Option<V>, StdError>)
+        ensures match V::m_get(store@, k@) {
+            Some(v) => r == Ok::<Option<V>, StdError>(Some(v)),
+            None => if V::m_raw(store@, k@) { r is Err } else { r == Ok::<Option<V>, StdError>(None) } }
+    { unimplemented!() }
+    #[verifier::external_body]
+    pub fn save(&self, store: &mut Storage, k: &[u8], v: &V) -> (r: Result<(), StdError>)
+        ensures r is Ok, final(store)@ == V::m_put(old(store)@, k@, *v)
+    { unimplemented!() }
+    #[verifier::external_body]
+    pub fn remove(&self, store: &mut Storage, k: &[u8])
+        ensures final(store)@ == V::m_del(old(store)@, k@)
+    { unimplemented!() }
+    #[verifier::external_body]
+    pub fn is_empty(&self, store: &Storage) -> (r: bool)
+        ensures r == V::m_empty(store@)
+    { unimplemented!() }
+    /// rule R7: keys of this namespace whose value deserialises as V
+    #[verifier::external_body]
+    pub fn keys_that_load(&self, store: &Storage) -> (r: Vec<Vec<u8>>)
+        ensures forall|i: int| 0 <= i < r@.len() ==> V::m_get(store@, #[trigger] r@[i]@) is Some,
+                forall|k: Seq<u8>| V::m_get(store@, k) is Some ==> exists|i: int| 0 <= i < r@.len() && #[trigger] r@[i]@ == k,
+                forall|i: int, j: int| 0 <= i < j < r@.len() ==> r@[i]@ != r@[j]@,
+    { unimplemented!() }
+    /// cw-storage-plus: `let input = self.may_load(..)?; let output = action(input)?; self.save(.., &output)?; Ok(output)`
+    #[verifier::external_body]
+    pub fn update<A: FnOnce(Option<V>) -> Result<V, E>, E>(&self, store: &mut Storage, k: &[u8], action: A) -> (r: Result<V, E>)
+        requires
+            !(V::m_raw(old(store)@, k@) && V::m_get(old(store)@, k@) is None) ==> action.requires((V::m_get(old(store)@, k@),)),
+        ensures
+            (V::m_raw(old(store)@, k@) && V::m_get(old(store)@, k@) is None) ==> r is Err && final(store)@ == old(store)@,
+            !(V::m_raw(old(store)@, k@) && V::m_get(old(store)@, k@) is None) ==> (match r {
+                Ok(v) => action.ensures((V::m_get(old(store)@, k@),), Ok::<V, E>(v)) && final(store)@ == V::m_put(old(store)@, k@, v),
+                Err(e) => final(store)@ == old(store)@,
+            }),
+    { unimplemented!() }
 }
 pub struct Item<V> { pub ns: &'static str, pub p: Ghost<Option<V>> }
-impl<V> Item<V> {
+impl<V: ItemStored> Item<V> {
     pub const fn new(ns: &'static str) -> Self { Item { ns, p: Ghost(None) } }
-    #[verifier::external_body] pub fn load(&self, store: &Storage) -> (r: Result<V, StdError>) { unimplemented!() }
-    #[verifier::external_body] pub fn save(&self, store: &mut Storage, v: &V) -> (r: Result<(), StdError>) { unimplemented!() }
+    #[verifier::external_body]
+    pub fn load(&self, store: &Storage) -> (r: Result<V, StdError>)
+        ensures match V::i_get(store@) { Some(v) => r == Ok::<V, StdError>(v), None => r is Err }
+    { unimplemented!() }
+    #[verifier::external_body]
+    pub fn save(&self, store: &mut Storage, v: &V) -> (r: Result<(), StdError>)
+        ensures r is Ok, final(store)@ == V::i_put(old(store)@, *v)
+    { unimplemented!() }
 }
+pub uninterp spec fn valid_addr(s: Seq<char>) -> bool;
 pub struct Api {}
-impl Api { #[verifier::external_body] pub fn addr_validate(&self, s: &str) -> (r: Result<Addr, StdError>) { unimplemented!() } }
+impl Api {
+    #[verifier::external_body]
+    pub fn addr_validate(&self, s: &str) -> (r: Result<Addr, StdError>)
+        ensures valid_addr(s@) ==> r is Ok && r->Ok_0.s@ == s@, !valid_addr(s@) ==> r is Err
+    { unimplemented!() }
+}
 pub struct QuerierWrapper {}
 pub struct DepsMut<'a> { pub storage: &'a mut Storage, pub api: &'a Api, pub querier: QuerierWrapper }
 impl<'a> DepsMut<'a> {
-    #[verifier::external_body] pub fn branch(&mut self) -> (r: DepsMut<'_>) { unimplemented!() }
+    pub fn branch(&mut self) -> (r: DepsMut<'_>)
+        ensures *r.storage == *old(self).storage, *final(self).storage == *final(r.storage),
+                *final(final(self).storage) == *final(old(self).storage)
+    {
+        DepsMut { storage: self.storage, api: self.api, querier: QuerierWrapper {} }
+    }
 }
 pub struct Deps<'a> { pub storage: &'a Storage, pub api: &'a Api, pub querier: QuerierWrapper }
 pub struct ContractInfoEnv { pub address: Addr }
 pub struct Env { pub contract: ContractInfoEnv }
 pub struct MessageInfo { pub sender: Addr, pub funds: Vec<Coin> }
-pub struct Binary {}
-#[verifier::external_body] pub fn to_binary<T>(t: &T) -> StdResult<Binary> { unimplemented!() }
-#[verifier::external_body] pub fn json_to_string<T>(t: &T) -> Result<String, Error> { unimplemented!() }
+pub struct Binary { pub g: Ghost<Seq<u8>> }
+pub uninterp spec fn ser<T>(t: T) -> Seq<u8>;
+pub uninterp spec fn json_of<T>(t: T) -> Seq<char>;
+#[verifier::external_body]
+pub fn to_binary<T>(t: &T) -> (r: StdResult<Binary>)
+    ensures r is Ok, r->Ok_0.g@ == ser::<T>(*t)
+{ unimplemented!() }
+#[verifier::external_body]
+pub fn json_to_string<T>(t: &T) -> (r: Result<String, Error>)
+    ensures r is Ok, r->Ok_0@ == json_of::<T>(*t)
+{ unimplemented!() }
 
 // ---------- response ----------
 pub struct Attribute { pub key: String, pub value: String }
-pub struct Response { pub msgs: Ghost<int> }
-pub trait IntoStr { fn into_str(self) -> String; }
-impl IntoStr for &str { #[verifier::external_body] fn into_str(self) -> String { unimplemented!() } }
-impl IntoStr for String { fn into_str(self) -> String { self } }
-impl IntoStr for &String { fn into_str(self) -> String { self.clone() } }
-impl IntoStr for Uint128 { #[verifier::external_body] fn into_str(self) -> String { unimplemented!() } }
-pub fn attr<K: IntoStr, V: IntoStr>(k: K, v: V) -> Attribute { Attribute { key: k.into_str(), value: v.into_str() } }
-pub trait IntoMsg {}
-impl IntoMsg for MsgTransferRequest {}
-impl IntoMsg for BankMsg {}
+pub struct Response { pub msgs: Ghost<Seq<Msg>>, pub attrs: Ghost<Seq<(Seq<char>, Seq<char>)>> }
+pub open spec fn attr_views(a: Seq<Attribute>) -> Seq<(Seq<char>, Seq<char>)> {
+    Seq::new(a.len(), |i: int| (a[i].key@, a[i].value@))
+}
+pub fn attr<K: IntoStringS, V: IntoStringS>(k: K, v: V) -> (r: Attribute)
+    ensures r.key@ == k.istr(), r.value@ == v.istr()
+{ Attribute { key: k.into(), value: v.into() } }
+pub trait IntoMsg: Sized { spec fn msg_spec(self) -> Msg; }
+impl IntoMsg for MsgTransferRequest {
+    open spec fn msg_spec(self) -> Msg {
+        match self.amount {
+            Some(c) => Msg::Marker { from: self.from_address@, to: self.to_address@, admin: self.administrator@, denom: c.denom@, amount: u128_of_str(c.amount@) },
+            None => Msg::Other,
+        }
+    }
+}
+impl IntoMsg for BankMsg {
+    open spec fn msg_spec(self) -> Msg {
+        match self {
+            BankMsg::Send { to_address, amount } =>
+                if amount@.len() == 1 { Msg::Bank { to: to_address@, denom: amount@[0].denom@, amount: amount@[0].amount.v as int } } else { Msg::Other },
+        }
+    }
+}
 impl Response {
-    #[verifier::external_body] pub fn new() -> (r: Response) { unimplemented!() }
-    #[verifier::external_body] pub fn add_attributes(self, a: Vec<Attribute>) -> (r: Response) { unimplemented!() }
-    #[verifier::external_body] pub fn add_attribute<K: IntoStr, V: IntoStr>(self, k: K, v: V) -> (r: Response) { unimplemented!() }
-    #[verifier::external_body] pub fn add_message<M: IntoMsg>(self, m: M) -> Response { unimplemented!() }
+    pub fn new() -> (r: Response) ensures r.msgs@ == Seq::<Msg>::empty(), r.attrs@ == Seq::<(Seq<char>, Seq<char>)>::empty()
+    { Response { msgs: Ghost(Seq::empty()), attrs: Ghost(Seq::empty()) } }
+    #[verifier::external_body]
+    pub fn add_attributes(self, a: Vec<Attribute>) -> (r: Response)
+        ensures r.msgs == self.msgs, r.attrs@ == self.attrs@ + attr_views(a@)
+    { unimplemented!() }
+    #[verifier::external_body]
+    pub fn add_attribute<K: IntoStringS, V: IntoStringS>(self, k: K, v: V) -> (r: Response)
+        ensures r.msgs == self.msgs, r.attrs@ == self.attrs@.push((k.istr(), v.istr()))
+    { unimplemented!() }
+    #[verifier::external_body]
+    pub fn add_message<M: IntoMsg>(self, m: M) -> (r: Response)
+        ensures r.attrs == self.attrs, r.msgs@ == self.msgs@.push(m.msg_spec())
+    { unimplemented!() }
 }
 pub enum BankMsg { Send { to_address: String, amount: Vec<Coin> } }
 pub struct PCoin { pub denom: String, pub amount: String }
 pub struct MsgTransferRequest { pub amount: Option<PCoin>, pub administrator: String, pub from_address: String, pub to_address: String }
 
-// ---------- provwasm queriers ----------
+// ---------- provwasm queriers (A-CHAINQ) ----------
 pub struct Empty {}
-pub struct Any {}
+pub struct Any { pub g: Ghost<int> }
 pub struct MarkerAccount { pub marker_type: i32, pub denom: String }
 pub struct QueryMarkerResponse { pub marker: Option<Any> }
-pub struct MarkerQuerier<'a, Q> { pub q: &'a QuerierWrapper, pub p: Ghost<Q> }
+pub uninterp spec fn mq_ok(d: Seq<char>) -> bool;
+pub uninterp spec fn mq_any(d: Seq<char>) -> Option<Any>;
+pub uninterp spec fn any_account(a: Any) -> Option<MarkerAccount>;
+/// the denomination is a restricted marker on chain (marker_type 2)
+pub open spec fn restricted(d: Seq<char>) -> bool {
+    mq_ok(d) && mq_any(d) is Some && any_account(mq_any(d)->0) is Some && any_account(mq_any(d)->0)->0.marker_type == 2
+}
+pub struct MarkerQuerier<'a, Q> { pub q: &'a QuerierWrapper, pub p: Ghost<Option<Q>> }
 impl<'a, Q> MarkerQuerier<'a, Q> {
-    #[verifier::external_body] pub fn new(q: &'a QuerierWrapper) -> Self { unimplemented!() }
-    #[verifier::external_body] pub fn marker(&self, id: String) -> StdResult<QueryMarkerResponse> { unimplemented!() }
+    #[verifier::external_body] pub fn new(q: &'a QuerierWrapper) -> (r: Self) { unimplemented!() }
+    #[verifier::external_body]
+    pub fn marker(&self, id: String) -> (r: StdResult<QueryMarkerResponse>)
+        ensures mq_ok(id@) ==> r is Ok && r->Ok_0.marker == mq_any(id@), !mq_ok(id@) ==> r is Err
+    { unimplemented!() }
 }
 pub struct TryErr {}
-impl TryFrom<Any> for MarkerAccount { type Error = TryErr; #[verifier::external_body] fn try_from(a: Any) -> Result<MarkerAccount, TryErr> { unimplemented!() } }
+impl TryFrom<Any> for MarkerAccount {
+    type Error = TryErr;
+    #[verifier::external_body]
+    fn try_from(a: Any) -> (r: Result<MarkerAccount, TryErr>)
+        ensures match any_account(a) { Some(m) => r == Ok::<MarkerAccount, TryErr>(m), None => r is Err }
+    { unimplemented!() }
+}
 pub struct ProvAttribute { pub name: String }
 pub struct QueryAttributesResponse { pub attributes: Vec<ProvAttribute> }
-pub struct AttributeQuerier<'a, Q> { pub q: &'a QuerierWrapper, pub p: Ghost<Q> }
+pub uninterp spec fn attrs_of(addr: Seq<char>) -> Option<Seq<Seq<char>>>;
+pub struct AttributeQuerier<'a, Q> { pub q: &'a QuerierWrapper, pub p: Ghost<Option<Q>> }
 impl<'a, Q> AttributeQuerier<'a, Q> {
-    #[verifier::external_body] pub fn new(q: &'a QuerierWrapper) -> Self { unimplemented!() }
-    #[verifier::external_body] pub fn attributes(&self, a: String, p: Option<u8>) -> StdResult<QueryAttributesResponse> { unimplemented!() }
+    #[verifier::external_body] pub fn new(q: &'a QuerierWrapper) -> (r: Self) { unimplemented!() }
+    #[verifier::external_body]
+    pub fn attributes(&self, a: String, p: Option<u8>) -> (r: StdResult<QueryAttributesResponse>)
+        ensures match attrs_of(a@) {
+            Some(names) => r is Ok && r->Ok_0.attributes@.len() == names.len()
+                && forall|i: int| 0 <= i < names.len() ==> (#[trigger] r->Ok_0.attributes@[i]).name@ == names[i],
+            None => r is Err }
+    { unimplemented!() }
 }
-// ---------- uuid / semver / hashset ----------
-pub struct Uuid {}
-pub struct Hyph {}
-impl Uuid { #[verifier::external_body] pub fn parse_str(s: &str) -> Result<Uuid, UuidError> { unimplemented!() }
-  #[verifier::external_body] pub fn hyphenated(self) -> Hyph { unimplemented!() } }
-impl Hyph { #[verifier::external_body] pub fn to_string(&self) -> String { unimplemented!() } }
-pub struct Version {}
-pub struct VersionReq {}
-impl Version { #[verifier::external_body] pub fn parse(s: &str) -> Result<Version, SemverError> { unimplemented!() }
-  #[verifier::external_body] pub fn to_string(&self) -> String { unimplemented!() } }
-impl VersionReq { #[verifier::external_body] pub fn parse(s: &str) -> Result<VersionReq, SemverError> { unimplemented!() }
-  #[verifier::external_body] pub fn matches(&self, v: &Version) -> bool { unimplemented!() } }
-pub struct HashSet<T> { pub g: Ghost<Set<T>> }
-impl<T> HashSet<T> {
-    #[verifier::external_body] pub fn contains(&self, x: &T) -> bool { unimplemented!() }
-    #[verifier::external_body] pub fn is_subset(&self, o: &HashSet<T>) -> bool { unimplemented!() }
+/// the account holds every attribute of the list
+pub open spec fn has_all_attrs(addr: Seq<char>, required: Seq<String>) -> bool {
+    attrs_of(addr) is Some && forall|i: int| 0 <= i < required.len() ==> attrs_of(addr)->0.contains((#[trigger] required[i])@)
 }
-#[verifier::external_body] pub fn collect_strings(v: Vec<&str>) -> Vec<String> { unimplemented!() }
-#[verifier::external_body] pub fn attr_names(v: Vec<ProvAttribute>) -> HashSet<String> { unimplemented!() }
-#[verifier::external_body] pub fn addr_string_set(v: Vec<Addr>) -> HashSet<String> { unimplemented!() }
-#[verifier::external_body] pub fn string_set(v: Vec<String>) -> HashSet<String> { unimplemented!() }
-#[verifier::external_body] pub fn any_missing(req: &Vec<String>, names: &HashSet<String>) -> bool { unimplemented!() }
-// thiserror #[from] conversions
-impl From<StdError> for ContractError { #[verifier::external_body] fn from(e: StdError) -> (r: ContractError) { ContractError::Std(e) } }
-impl From<OverflowError> for ContractError { #[verifier::external_body] fn from(e: OverflowError) -> (r: ContractError) { ContractError::OverflowError(e) } }
-impl From<Error> for ContractError { #[verifier::external_body] fn from(e: Error) -> (r: ContractError) { ContractError::JsonSerde(e) } }
-impl From<SemverError> for ContractError { #[verifier::external_body] fn from(e: SemverError) -> (r: ContractError) { ContractError::SemverError(e) } }
-impl From<UuidError> for ContractError { #[verifier::external_body] fn from(e: UuidError) -> (r: ContractError) { ContractError::UuidError(e) } }
+
+// ---------- uuid (A-UUID) ----------
+pub uninterp spec fn uuid_parse(s: Seq<char>) -> Option<int>;
+pub uninterp spec fn uuid_hyph(u: int) -> Seq<char>;
+#[verifier::external_body]
+pub broadcast proof fn axiom_uuid_roundtrip(u: int)
+    ensures uuid_parse(#[trigger] uuid_hyph(u)) == Some(u)
+{}
+/// canonical hyphenated form
+pub open spec fn canonical_id(s: Seq<char>) -> bool { uuid_parse(s) is Some && s == uuid_hyph(uuid_parse(s)->0) }
+pub struct Uuid { pub g: Ghost<int> }
+pub struct Hyph { pub g: Ghost<int> }
+impl Uuid {
+    #[verifier::external_body]
+    pub fn parse_str(s: &str) -> (r: Result<Uuid, UuidError>)
+        ensures match uuid_parse(s@) { Some(u) => r is Ok && r->Ok_0.g@ == u, None => r is Err }
+    { unimplemented!() }
+    #[verifier::external_body]
+    pub fn hyphenated(self) -> (r: Hyph) ensures r.g@ == self.g@ { unimplemented!() }
+}
+impl Hyph { #[verifier::external_body] pub fn to_string(&self) -> (r: String) ensures r@ == uuid_hyph(self.g@) { unimplemented!() } }
+
+// ---------- semver (A-SEMVER) ----------
+pub ghost struct Ver { pub major: int, pub minor: int, pub patch: int, pub pre: bool }
+pub uninterp spec fn ver_parse(s: Seq<char>) -> Option<Ver>;
+pub uninterp spec fn req_parse(s: Seq<char>) -> Option<int>;
+pub uninterp spec fn req_matches(r: int, v: Ver) -> bool;
+pub open spec fn ver_ge(v: Ver, a: int, b: int, c: int) -> bool {
+    v.major > a || (v.major == a && (v.minor > b || (v.minor == b && v.patch >= c)))
+}
+#[verifier::external_body]
+pub broadcast proof fn axiom_semver_reqs(v: Ver)
+    ensures
+        req_parse(">=0.16.2"@) is Some, #[trigger] req_matches(req_parse(">=0.16.2"@)->0, v) == (!v.pre && ver_ge(v, 0, 16, 2)),
+        req_parse(">=0.15.0"@) is Some, req_matches(req_parse(">=0.15.0"@)->0, v) == (!v.pre && ver_ge(v, 0, 15, 0)),
+        req_parse("<0.16.2"@) is Some, req_matches(req_parse("<0.16.2"@)->0, v) == (!v.pre && !ver_ge(v, 0, 16, 2)),
+        req_parse(">=0.16.2, <0.19.1"@) is Some,
+        req_matches(req_parse(">=0.16.2, <0.19.1"@)->0, v) == (!v.pre && ver_ge(v, 0, 16, 2) && !ver_ge(v, 0, 19, 1)),
+{}
+pub struct Version { pub g: Ghost<Ver> }
+pub struct VersionReq { pub g: Ghost<int> }
+impl Version {
+    #[verifier::external_body]
+    pub fn parse(s: &str) -> (r: Result<Version, SemverError>)
+        ensures match ver_parse(s@) { Some(v) => r is Ok && r->Ok_0.g@ == v, None => r is Err }
+    { unimplemented!() }
+    #[verifier::external_body] pub fn to_string(&self) -> (r: String) { unimplemented!() }
+}
+impl VersionReq {
+    #[verifier::external_body]
+    pub fn parse(s: &str) -> (r: Result<VersionReq, SemverError>)
+        ensures match req_parse(s@) { Some(q) => r is Ok && r->Ok_0.g@ == q, None => r is Err }
+    { unimplemented!() }
+    #[verifier::external_body]
+    pub fn matches(&self, v: &Version) -> (r: bool) ensures r == req_matches(self.g@, v.g@) { unimplemented!() }
+}
+
+// ---------- HashSet<String> and the helpers of rules R5/R6 ----------
+pub struct HashSet<T> { pub g: Ghost<Set<Seq<char>>>, pub p: Ghost<Option<T>> }
+impl View for HashSet<String> { type V = Set<Seq<char>>; open spec fn view(&self) -> Set<Seq<char>> { self.g@ } }
+impl HashSet<String> {
+    #[verifier::external_body]
+    pub fn new() -> (r: HashSet<String>) ensures r@ == Set::<Seq<char>>::empty() { unimplemented!() }
+    #[verifier::external_body]
+    pub fn insert(&mut self, x: String) ensures final(self)@ == old(self)@.insert(x@) { unimplemented!() }
+    #[verifier::external_body]
+    pub fn contains(&self, x: &String) -> (r: bool) ensures r == self@.contains(x@) { unimplemented!() }
+    #[verifier::external_body]
+    pub fn is_subset(&self, o: &HashSet<String>) -> (r: bool) ensures r == self@.subset_of(o@) { unimplemented!() }
+}
+// error payload only; no property reads it
+#[verifier::external_body] pub fn collect_strings(v: Vec<&str>) -> (r: Vec<String>) { unimplemented!() }
+pub fn attr_names(v: Vec<ProvAttribute>) -> (r: HashSet<String>)
+    ensures forall|s: Seq<char>| r@.contains(s) <==> exists|i: int| 0 <= i < v@.len() && (#[trigger] v@[i]).name@ == s
+{
+    let mut out = HashSet::<String>::new();
+    let mut i: usize = 0;
+    while i < v.len()
+        invariant 0 <= i <= v@.len(),
+            forall|s: Seq<char>| out@.contains(s) <==> exists|j: int| 0 <= j < i && (#[trigger] v@[j]).name@ == s,
+        decreases v@.len() - i,
+    {
+        out.insert(v[i].name.clone());
+        i = i + 1;
+    }
+    out
+}
+pub fn addr_string_set(v: Vec<Addr>) -> (r: HashSet<String>)
+    ensures forall|s: Seq<char>| r@.contains(s) <==> exists|i: int| 0 <= i < v@.len() && (#[trigger] v@[i]).s@ == s
+{
+    let mut out = HashSet::<String>::new();
+    let mut i: usize = 0;
+    while i < v.len()
+        invariant 0 <= i <= v@.len(),
+            forall|s: Seq<char>| out@.contains(s) <==> exists|j: int| 0 <= j < i && (#[trigger] v@[j]).s@ == s,
+        decreases v@.len() - i,
+    {
+        out.insert(v[i].s.clone());
+        i = i + 1;
+    }
+    out
+}
+pub fn string_set(v: Vec<String>) -> (r: HashSet<String>)
+    ensures forall|s: Seq<char>| r@.contains(s) <==> exists|i: int| 0 <= i < v@.len() && (#[trigger] v@[i])@ == s
+{
+    let mut out = HashSet::<String>::new();
+    let mut i: usize = 0;
+    while i < v.len()
+        invariant 0 <= i <= v@.len(),
+            forall|s: Seq<char>| out@.contains(s) <==> exists|j: int| 0 <= j < i && (#[trigger] v@[j])@ == s,
+        decreases v@.len() - i,
+    {
+        out.insert(v[i].clone());
+        i = i + 1;
+    }
+    out
+}
+pub fn any_missing(req: &Vec<String>, names: &HashSet<String>) -> (r: bool)
+    ensures r == exists|i: int| 0 <= i < req@.len() && !names@.contains((#[trigger] req@[i])@)
+{
+    let mut i: usize = 0;
+    while i < req.len()
+        invariant 0 <= i <= req@.len(),
+            forall|j: int| 0 <= j < i ==> names@.contains((#[trigger] req@[j])@),
+        decreases req@.len() - i,
+    {
+        if !names.contains(&req[i]) { return true; }
+        i = i + 1;
+    }
+    false
+}
+
+// ---------- thiserror #[from] conversions (rule R12) ----------
+impl FromSpecImpl<StdError> for ContractError {
+    open spec fn obeys_from_spec() -> bool { true }
+    open spec fn from_spec(e: StdError) -> ContractError { ContractError::Std(e) }
+}
+impl From<StdError> for ContractError { fn from(e: StdError) -> (r: ContractError) { ContractError::Std(e) } }
+impl FromSpecImpl<OverflowError> for ContractError {
+    open spec fn obeys_from_spec() -> bool { true }
+    open spec fn from_spec(e: OverflowError) -> ContractError { ContractError::OverflowError(e) }
+}
+impl From<OverflowError> for ContractError { fn from(e: OverflowError) -> (r: ContractError) { ContractError::OverflowError(e) } }
+impl FromSpecImpl<Error> for ContractError {
+    open spec fn obeys_from_spec() -> bool { true }
+    open spec fn from_spec(e: Error) -> ContractError { ContractError::JsonSerde(e) }
+}
+impl From<Error> for ContractError { fn from(e: Error) -> (r: ContractError) { ContractError::JsonSerde(e) } }
+impl FromSpecImpl<SemverError> for ContractError {
+    open spec fn obeys_from_spec() -> bool { true }
+    open spec fn from_spec(e: SemverError) -> ContractError { ContractError::SemverError(e) }
+}
+impl From<SemverError> for ContractError { fn from(e: SemverError) -> (r: ContractError) { ContractError::SemverError(e) } }
+impl FromSpecImpl<UuidError> for ContractError {
+    open spec fn obeys_from_spec() -> bool { true }
+    open spec fn from_spec(e: UuidError) -> ContractError { ContractError::UuidError(e) }
+}
+impl From<UuidError> for ContractError { fn from(e: UuidError) -> (r: ContractError) { ContractError::UuidError(e) } }
 } // mod flat
